@@ -1,5 +1,6 @@
 //! verif harness: drives the real ruma API with cases emitted by TLC (spec -> impl replay) and
 //! records executions of the real API for validation by TLC (impl -> spec).
+mod c01;
 mod c04;
 mod c08;
 mod c10;
@@ -18,6 +19,8 @@ fn main() {
     util::quiet_panics();
     let rest = &args[2..];
     match (args[0].as_str(), args[1].to_ascii_lowercase().as_str()) {
+        ("replay", "c01") => c01::replay(rest),
+        ("record", "c01") => c01::record(rest),
         ("replay", "c04") => c04::replay(rest),
         ("record", "c04") => c04::record(rest),
         ("replay", "c08") => c08::replay(rest),
